@@ -38,8 +38,9 @@ def sizes(tier):
 MC_CFG = {
     "TransferAuthz": {
         "module": "MC_TransferAuthz", "invariants": ["Inv"], "properties": ["LimitsOnlyShrink", "ListsFixed", "NoResurrection"],
-        "quick": dict(MAXLIM=2, BALS={2}, MAXAMT=2, RCVS={"r1", "r2"}, MEMOS={"", "m1"}, FULL=False, C1MODE="small"),
-        "thorough": dict(MAXLIM=2, BALS={2}, MAXAMT=2, RCVS={"r1", "r2"}, MEMOS={"", "m1"}, FULL=False, C1MODE="nolists"),
+        "quick": dict(MAXLIM=1, BALS={2}, MAXAMT=1, RCVS={"r1", "r2"}, MEMOS={"", "m1"}, FULL=False, C1MODE="small"),
+        "thorough": dict(MAXLIM=2, BALS={2}, MAXAMT=2, RCVS={"r1", "r2"}, MEMOS={"", "m1"}, FULL=False, C1MODE="small"),
+        "deep": dict(MAXLIM=2, BALS={2}, MAXAMT=2, RCVS={"r1", "r2"}, MEMOS={"", "m1"}, FULL=False, C1MODE="nolists"),
         "witness": ["ok", "okSentinelUnbounded", "okUnboundedKeepsLimit", "allocRemoved", "grantDeleted", "partialDenomLeft", "rejNoAlloc",
                     "rejReceiver", "rejMemo", "rejOverLimit", "rejSentinelBounded", "rejFunds", "batchOk", "batchRevert"],
     },
@@ -68,7 +69,7 @@ def run_mc(tier, result, errors):
             c = MC_CFG[name]
             cfg = os.path.join(d, "MC_%s.cfg" % name)
             vk.write_cfg(cfg, "Spec", c[tier], invariants=c["invariants"], properties=c["properties"])
-            r = vk.tlc_mc(d, c["module"], cfg, workers=4 if name == "TransferAuthz" else 1, timeout=900 if tier == "quick" else 3000)
+            r = vk.tlc_mc(d, c["module"], cfg, workers=4 if name == "TransferAuthz" else 1, timeout=1800 if tier == "quick" else 5400)
             seen = set(re.findall(r'<<"WITNESS", "([A-Za-z0-9_]+)">>', r["out"]))
             missing = [w for w in c["witness"] if w not in seen]
             if missing:
@@ -161,6 +162,8 @@ def gen_enumerated(tier, seed, workdir):
 
 # ------------------------------------------------------------------------------------------ drive + validate
 
+MONFAIL_RE = re.compile(r'<<\s*"MONFAIL",\s*"([^"]*)",\s*(\d+),\s*<<\s*"([^"]*)",\s*"([^"]*)"\s*>>\s*>>')
+
 DRIVER = {"authz": "TestDriveAuthz", "cb": "TestDriveCallbacks", "cbfn": "TestDriveCallbacks", "auth": "TestDriveAuth"}
 TRACE_MODULE = {"authz": "Trace_TransferAuthz", "cb": "Trace_Callbacks", "cbfn": "Trace_CallbacksFn", "auth": "Trace_Auth"}
 
@@ -201,8 +204,10 @@ def validate(sub, lines, workdir, tag):
         f.writelines(lines)
     cfg = os.path.join(d, "Trace_%s.cfg" % sub)
     vk.write_cfg(cfg, "TraceSpec", dict(TraceFile=tf))
-    fl, consumed, out = vk.tlc_trace(d, TRACE_MODULE[sub], cfg)
+    _, consumed, out = vk.tlc_trace(d, TRACE_MODULE[sub], cfg)
     shutil.rmtree(d, ignore_errors=True)
+    # TLC wraps tuples longer than its line width over several lines: parse MONFAIL whitespace-tolerantly
+    fl = [(m.group(1), int(m.group(2)), m.group(3), m.group(4)) for m in MONFAIL_RE.finditer(out)]
     if consumed != len(lines):
         raise vk.Infra("trace validation (%s) consumed %d of %d lines\n%s" % (sub, consumed, len(lines), out[-2000:]))
     return fl
